@@ -322,6 +322,18 @@ static Verdict run_case(const TCase &c) {
       v.label("skipped_unrepresentable");
       return v;
     }
+    // the entry points add the offsets to every coordinate in 16.16: a point whose translated position is not
+    // representable cannot be expressed through the API
+    {
+      bool ok = true;
+      int64_t ox = (int64_t)c.xoff * 65536, oy = (int64_t)c.yoff * 65536;
+      for (int64_t vy : {t.top, t.bottom, t.l1.y, t.l2.y, t.r1.y, t.r2.y}) ok = ok && fits32(vy + oy);
+      for (int64_t vx : {t.l1.x, t.l2.x, t.r1.x, t.r2.x}) ok = ok && fits32(vx + ox);
+      if (!ok) {
+        v.label("skipped_unrepresentable_after_offset");
+        return v;
+      }
+    }
     // sample rows of the image: [0, h)
     if (!edge_in_range(t.l1, t.l2, 0, (int64_t)c.h * 65536, (int64_t)c.xoff * 65536, (int64_t)c.yoff * 65536) ||
         !edge_in_range(t.r1, t.r2, 0, (int64_t)c.h * 65536, (int64_t)c.xoff * 65536, (int64_t)c.yoff * 65536)) {
